@@ -164,6 +164,12 @@ func RunHistory(rng *common.Rng, cfg Config) (*Run, error) {
 		return false
 	}
 	exec := func(o Op) (StepObs, error) {
+		if o.Kind == "cmd" && o.All {
+			o.ByUID, o.Ps = false, nil
+			for p := 1; p <= len(mir[o.S].Cells); p++ {
+				o.Ps = append(o.Ps, p)
+			}
+		}
 		if o.Kind == "cmd" && o.ByUID {
 			// the UID form needs the UIDs the client learnt for the chosen positions, and a mirror that is the session's view
 			o.UIDs = nil
@@ -417,6 +423,15 @@ func RunHistory(rng *common.Rng, cfg Config) (*Run, error) {
 			}
 		}
 		sort.Ints(ps)
+		if len(ps) > 1 && rng.Chance(0.3) {
+			// a message set is a set: written in descending order, sometimes with a number twice
+			for i, j := 0, len(ps)-1; i < j; i, j = i+1, j-1 {
+				ps[i], ps[j] = ps[j], ps[i]
+			}
+			if rng.Chance(0.3) {
+				ps = append(ps, ps[0])
+			}
+		}
 		return ps
 	}
 	pickFlags := func(allowDeleted bool) []int {
